@@ -36,7 +36,14 @@ Definition lkstep (s : lkstate) (e : lev) : option lkstate :=
                | _, _ => None
                end
   | LUnlock t => if is_writer s t then Some (mkLk None (readers s)) else None
-  | LRLock t => match writer s with None => Some (mkLk None (t :: readers s)) | Some _ => None end
+  | LRLock t =>
+      (* no recursive read locking: a writer that arrives between the two RLocks waits for the
+         first to be released while the second waits for the writer (sync.RWMutex: a blocked Lock
+         keeps new readers out) *)
+      match writer s with
+      | None => if is_reader s t then None else Some (mkLk None (t :: readers s))
+      | Some _ => None
+      end
   | LRUnlock t => match remove_one t (readers s) with Some r => Some (mkLk (writer s) r) | None => None end
   | LRead t => if is_writer s t || is_reader s t then Some s else None
   | LWrite t => if is_writer s t then Some s else None
